@@ -677,7 +677,7 @@ func sectionCorpus() {
 func sectionLexer(rng *vh.Rng) {
 	sec := res.Section("lexer", "unit-correspondence",
 		"token streams (types and values after participle's rune-appending unquote) of generated statements, their mutants and byte soups over the lexer's interesting bytes: real parser lexer vs the hand-written maximal-munch model lexer; non-trivial = at least 3 tokens, distinct by text")
-	n := 30000
+	n := 20000
 	if args.Thorough {
 		n = 300000
 	}
@@ -729,7 +729,7 @@ func sectionLexer(rng *vh.Rng) {
 func sectionParse(rng *vh.Rng) {
 	sec := res.Section("parse", "unit-correspondence",
 		"(1) whole statements of every kind generated from the grammar (nesting 0..4) and their mutants: lql.ParseLql AST + Lql.String() vs engine on the regenerated grammar + model printers (same cases as the roundtrip section, reported there); (2) generated filter expressions / source conditions and mutants: lql.ParseExpr / lql.ParseSource + String() vs engine (roots Expression / Source) vs the direct recursive-descent parser the theorems are about; non-trivial = accepted, distinct by text")
-	n := 20000
+	n := 12000
 	if args.Thorough {
 		n = 200000
 	}
@@ -824,7 +824,7 @@ func sectionParse(rng *vh.Rng) {
 func sectionRoundtrip(rng *vh.Rng) {
 	sec := res.Section("roundtrip", "spec-search",
 		"statements of every kind generated from the grammar (SELECT, SHOW, DESCRIBE, TRUNCATE, CREATE/DELETE PIPE; nesting 0..4; strings from a weighted alphabet with quotes, escapes, braces, non-ASCII and invalid bytes; identifiers with : . / -; numbers with size suffixes up to 2^64; date literals as integers and absolute dates, a tenth aimed at 10 ms multiples) plus as many mutants (junk insertion, deletions, swaps, duplicates, case flips): ParseLql → String() → ParseLql; the two ASTs must have the same meaning: truth values of every source condition on 36 sample tag sets and of every filter on 24 sample events (incl. values with runs of blanks, leading/trailing blanks, a trailing backslash) (real evaluators on both sides), range, position, offset, limit, sizes, BEFORE, DRYRUN, names, statement kind. Each case is also compared with the model (AST, printed text, re-parse). non-trivial = accepted statement longer than 12 bytes, distinct by text")
-	n := 30000
+	n := 20000
 	if args.Thorough {
 		n = 300000
 	}
@@ -852,7 +852,7 @@ func sectionRoundtrip(rng *vh.Rng) {
 func sectionDateContract(rng *vh.Rng) {
 	sec := res.Section("datecontract", "spec-search",
 		"the hypothesis DateContract of token_roundtrip_truncate, on the real functions: for instants v (unix nanoseconds: 0, ±1, whole seconds, every multiple of 10 ms / 1 ms / 1 µs inside sampled seconds, random values over the whole int64 range that time.Unix(0,v) can print with a four-digit year, negative values) parseLqlDateTime(unquote(DateTime(v).String())) == v; non-trivial = every instant, distinct by value")
-	n := 20000
+	n := 12000
 	if args.Thorough {
 		n = 300000
 	}
